@@ -1,5 +1,7 @@
 """C02 — every backend behaves like one per-bucket event list (necessary clauses)."""
 from ..rules_codec import codec_peewee, codec_sqlite
+from ..rules_commit import check_no_rollback
+from ..rules_own import own_rules
 from ..rules_read import last_rule
 from ..rules_store import addr_rule, ddl_facts, idalloc_memory, scope_memory, scope_peewee, scope_sqlite, upsert_rule, forward_bucket
 
@@ -28,6 +30,13 @@ def check(prog, rep):
     # what is written is what a list would hold: the SQL backends' encode/decode tables and scale constants agree
     codec_sqlite(prog, rep)
     codec_peewee(prog, rep)
+    # a list holds its own elements: nothing the caller keeps a reference to is stored, nothing stored is handed out
+    own_rules(prog, rep, methods=[m for m in ("insert_one", "insert_many", "replace", "replace_last", "get_event", "get_events", "delete")])
+    # the bulk path of the wrapper really is the bulk upsert
+    from .c01 import bucket_insert
+
+    bucket_insert(prog, rep)
+    check_no_rollback(prog, rep)
     # observation only: single insert of an id-bearing event differs between backends
     rep.note("sibling cross-check (observation, not a rule): a single insert of an id-bearing event is an upsert in memory and peewee but a plain INSERT that ignores the id in sqlite; the property speaks of bulk upsert only")
 
@@ -55,6 +64,9 @@ VARIANTS = [
     ("B memory id from the event count", ME, "                event.id = max(int(e.id or 0) for e in self.db[bucket]) + 1", "                event.id = len(self.db[bucket])", "IDALLOC"),
     ("B events.id without AUTOINCREMENT", SQ, "        id INTEGER PRIMARY KEY AUTOINCREMENT,\n        bucketrow", "        id INTEGER PRIMARY KEY,\n        bucketrow", "SCHEMA"),
     ("B sqlite replace drops the days of the duration", SQ, "    def replace(self, bucket_id, event_id, event) -> bool:\n        starttime = event.timestamp.timestamp() * 1000000\n        endtime = starttime + (event.duration.total_seconds() * 1000000)", "    def replace(self, bucket_id, event_id, event) -> bool:\n        starttime = event.timestamp.timestamp() * 1000000\n        endtime = starttime + (event.duration.seconds * 1000000)", "CODEC"),
+    ("B memory replace stores the caller's event", ME, "            event = copy.deepcopy(event)\n            event.id = event_id", "            event.id = event_id", "OWN-IN"),
+    ("B one-element lists routed to the single insert (no upsert in sqlite)", "aw_datastore/datastore.py", "        elif isinstance(events, list):", "        elif isinstance(events, list) and len(events) == 1:\n            self.ds.storage_strategy.insert_one(self.bucket_id, events[0])\n        elif isinstance(events, list):", "INSERT-PATHS"),
+    ("B peewee durations quantised to 10 microseconds", PW, "    duration = DecimalField()", "    duration = DecimalField(auto_round=True)", "CODEC"),
     ("OK explicit ASC on the tie-break", SQ, "                        ORDER BY starttime DESC, id DESC LIMIT 1)\"\"\"", "                        ORDER BY starttime  DESC ,  id  DESC  LIMIT  1)\"\"\"", "ok"),
     ("OK memory replace_last via reversed sort", ME, "last = sorted(self.db[bucket_id], key=lambda e: e.timestamp)[-1]", "last = sorted(self.db[bucket_id], key=lambda e: e.timestamp)[::-1][0]", "ok"),
     ("OK partition written with not", SQ, "        events_insert = [e for e in events if e.id is None]", "        events_insert = [e for e in events if not e.id is not None]", "ok"),
